@@ -597,7 +597,10 @@ where
 /// A type used for more advanced ways of allocating a [`Gc`].
 pub struct GcBuilder<'gc, T: ?Sized, M = (), P = UnitPtrMeta> {
     ptr: GcPtr<T>,
-    _marker: PhantomData<(Invariant<'gc>, M, P)>,
+    // The builder must be invariant in `T` (as `Gc` is): the allocation is registered for the `T`
+    // named when the builder is created, and written with the `T` the builder has when it is
+    // completed. `GcPtr<T>` alone is covariant.
+    _marker: PhantomData<(Invariant<'gc>, *mut T, M, P)>,
 }
 
 impl<'gc, T: ?Sized, M, P> Drop for GcBuilder<'gc, T, M, P> {
